@@ -233,16 +233,18 @@ theorem toUint8Clamp_spec {a : Num} (ha : Canon a) : toUint8Clamp a = specToUint
 theorem toLengthUint32_spec {a : Num} (ha : Canon a) : toLengthUint32 a = specArrayLength a.toF64 :=
   toLengthUint32_spec' ha
 
-/-- PARTIAL (code as it is): `Number(bigint)` is the spec's value only while the BigInt fits an int64; what is missing is
-every BigInt beyond ±2^63 (see the witness; patch fixes/C05-number-of-bigint.diff). -/
-theorem numberOfBigInt_partial {b : Int} (h : InInt64 b) : numberOfBigInt b = specNumberOfBigInt b := by
-  have hw : wrapS 64 b = b := by simp only [wrapS, InInt64, minInt64, maxInt64] at *; omega
-  simp only [numberOfBigInt, specNumberOfBigInt, hw]
-  exact floatToValue_unique' (canon_intToValue_canon b) (intToValue_denotes' b)
+/-- **`Number(bigint)` = 𝔽(ℝ(b))** for EVERY BigInt (after 9d4b1ca): the canonical value of the nearest double, whichever
+branch (`intToValue(Int64())` within int64, `big.Float` beyond) computes it. -/
+theorem numberOfBigInt_spec (b : Int) : numberOfBigInt b = specNumberOfBigInt b := by
+  simp only [numberOfBigInt, specNumberOfBigInt]
+  split
+  · exact floatToValue_unique' (canon_intToValue_canon b) (intToValue_denotes' b)
+  · rfl
 
-/-- DEFECT witness: `Number(2n**64n)` is 0 (the low 64 bits), the spec says 18446744073709551616. -/
-theorem numberOfBigInt_witness :
-    numberOfBigInt (2 ^ 64) = int 0 ∧ specNumberOfBigInt (2 ^ 64) = flt (F64.mk' false 1087 0) := by decide
+/-- Regression lemma (before 9d4b1ca the conversion was `intToValue(b.Int64())`): `Number(2n**64n)` was 0, the low 64 bits. -/
+theorem numberOfBigInt_prefix_witness :
+    numberOfBigIntPrefix (2 ^ 64) = int 0 ∧ specNumberOfBigInt (2 ^ 64) = flt (F64.mk' false 1087 0) ∧
+    numberOfBigInt (2 ^ 64) = flt (F64.mk' false 1087 0) := by decide
 
 /-! ## 5. String → number: grammar-level decisions of the fixed code (see `StrNum.lean`) -/
 
